@@ -545,6 +545,64 @@ func CrossingClosers() [][][]oracle.Pt {
 	return out
 }
 
+// VertexOnVerticalEdge: three triangles on the 5x5 lattice: C has the vertical edge (1,0)-(1,4)
+// and a third vertex to its left; A has the vertex (1,2) in the middle of that edge and its other
+// two vertices to the right (x >= 2; with full, anywhere off the line x=1); B has an edge that
+// passes through (1,2) (9 lattice chords) and any third vertex. The contours come in the order
+// A, B, C.
+func VertexOnVerticalEdge(full bool) [][][]oracle.Pt {
+	v := oracle.Pt{X: 1, Y: 2}
+	var all []oracle.Pt
+	for x := 0; x <= 4; x++ {
+		for y := 0; y <= 4; y++ {
+			all = append(all, oracle.Pt{X: float64(x), Y: float64(y)})
+		}
+	}
+	var cs [][]oracle.Pt // C
+	for y := 0; y <= 4; y++ {
+		cs = append(cs, []oracle.Pt{{X: 0, Y: float64(y)}, {X: 1, Y: 0}, {X: 1, Y: 4}})
+	}
+	var as [][]oracle.Pt
+	for i, p := range all {
+		for _, q := range all[i+1:] {
+			if p == v || q == v || oracle.Orient(v, p, q) == 0 {
+				continue
+			}
+			if full {
+				if p.X == 1 || q.X == 1 {
+					continue
+				}
+			} else if p.X < 2 || q.X < 2 {
+				continue
+			}
+			as = append(as, []oracle.Pt{v, p, q})
+		}
+	}
+	var bs [][]oracle.Pt
+	for i, p := range all {
+		for _, q := range all[i+1:] {
+			// v strictly inside the segment pq
+			if p == v || q == v || oracle.Orient(p, q, v) != 0 || (p.X-v.X)*(q.X-v.X)+(p.Y-v.Y)*(q.Y-v.Y) >= 0 || p.X == q.X {
+				continue
+			}
+			for _, t := range all {
+				if oracle.Orient(p, q, t) != 0 {
+					bs = append(bs, []oracle.Pt{p, q, t})
+				}
+			}
+		}
+	}
+	var out [][][]oracle.Pt
+	for _, c := range cs {
+		for _, a := range as {
+			for _, b := range bs {
+				out = append(out, [][]oracle.Pt{a, b, c})
+			}
+		}
+	}
+	return out
+}
+
 func families(tier string) []fw.Family {
 	L3, L4 := oracle.Lattice(3), oracle.Lattice(4)
 	tri3r := oracle.ContoursModRotation(L3, 3)
@@ -566,6 +624,7 @@ func families(tier string) []fw.Family {
 		family("quad(L3)/rot with one vertex moved by one ulp in x or y", UlpShapes(oracle.ContoursModRotation(L3, 4)), 1, 1e-8, 1e-6, false),
 		family("a contour covered several times: tri(L3)/rot and quad(L3)/rot twice, three times, with a reversed copy; three rectangles on a common left edge", Repeats(append(append([][]oracle.Pt{}, tri3r...), oracle.ContoursModRotation(L3, 4)...)), 1, 1e-8, 1e-6, false),
 		family("open quad(L3)/rot (open subpaths, implicitly closed)", single(oracle.ContoursModRotation(L3, 4)), 1, 1e-8, 1e-6, true),
+		family("three triangles (L5): a vertex in the middle of a vertical edge of another contour and an edge of the third through it; the first triangle to the right", VertexOnVerticalEdge(false), 1, 1e-8, 1e-6, false),
 	}
 	if tier == "thorough" {
 		fs = append(fs,
@@ -577,6 +636,7 @@ func families(tier string) []fw.Family {
 			family("rectilinear outer+inner+bar (L5), all 8 orientation combos", rectilinear3(5, [][3]bool{{true, false, true}, {true, true, true}, {false, true, true}, {false, false, true}, {true, false, false}, {true, true, false}, {false, true, false}, {false, false, false}}, false), 1, 1e-8, 1e-6, false),
 			family("pent(L3)/rot, coarse grid eps=0.25 on x4 lattice", single(oracle.ContoursModRotation(L3, 5)), 4, 0.25, 0.5, false),
 			family("quad(L4)/rot, coarse grid eps=1 on x8 lattice", single(oracle.ContoursModRotation(L4, 4)), 8, 1, 2, false),
+			family("three triangles (L5): a vertex in the middle of a vertical edge of another contour and an edge of the third through it; the first triangle anywhere off that line", VertexOnVerticalEdge(true), 1, 1e-8, 1e-6, false),
 		)
 	}
 	return fs
